@@ -1,7 +1,7 @@
 SPECIFICATION SpecS
 CONSTANTS
   P = 5
-  Offsets = {0, 3}
+  Offsets = {0}
   MaxSpans = 2
   MaxCopy = 0
   Filters = {"none"}
